@@ -212,6 +212,19 @@ func H_C20_bt_pairs() {
 		}, // 8
 		func() { s.DeleteTable(vCtx(), &btapb.DeleteTableRequest{Name: vTable}) },                   // 9
 		func() { s.SampleRowKeys(&btpb.SampleRowKeysRequest{TableName: vTable}, &vSampleStream{}) }, // 10
+		// 11..14: requests on the table that op 2 is creating and deleting at that moment
+		func() { s.ReadRows(&btpb.ReadRowsRequest{TableName: vParent + "/tables/u"}, &vReadStream{}) }, // 11
+		func() { // 12
+			s.MutateRow(vCtx(), &btpb.MutateRowRequest{TableName: vParent + "/tables/u", RowKey: []byte("r"), Mutations: []*btpb.Mutation{
+				{Mutation: &btpb.Mutation_SetCell_{SetCell: &btpb.Mutation_SetCell{FamilyName: "f", ColumnQualifier: []byte("q"), TimestampMicros: 2000, Value: []byte("w")}}}}})
+		},
+		func() { // 13
+			t, _ := s.GetTable(vCtx(), &btapb.GetTableRequest{Name: vParent + "/tables/u"})
+			c20Consume(t)
+		},
+		func() { // 14
+			s.DropRowRange(vCtx(), &btapb.DropRowRangeRequest{Name: vParent + "/tables/u", Target: &btapb.DropRowRangeRequest_DeleteAllDataFromTable{DeleteAllDataFromTable: true}})
+		},
 	}
 	a := vChoice("op.a", 0, len(ops)-1)
 	b := vChoice("op.b", a, len(ops)-1)
